@@ -299,7 +299,11 @@ pub fn suite_c06(ctx: &mut Ctx) {
             // hard cases (table-maker's dilemma): inputs whose exact root lies extremely close to a rounding
             // midpoint.  For every odd 29-bit m (a midpoint of 28-bit root significands) m^2 is compared with
             // the nearest representable input significand; the closest ones are kept.  (Input selection only.)
-            let keep_bits = if ctx.thorough { 13 } else { 17 }; // |distance| < 2^-keep_bits of an input ulp
+            // |distance| < 2^-10 of an input ulp: about 2^18 candidates per parity; the very closest (2^-16) are all
+            // kept, the others are sub-sampled (seeded) to a few ten thousand
+            let keep_bits = 10;
+            let keep_all_bits = if ctx.thorough { 13 } else { 16 };
+            let sample_mask: u64 = if ctx.thorough { 0 } else { 3 }; // keep all resp. 1/4 of the rest
             let mut hard: Vec<u64> = Vec::new();
             let mut m: u64 = (1 << 28) + 1;
             while m < (1 << 29) {
@@ -307,17 +311,16 @@ pub fn suite_c06(ctx: &mut Ctx) {
                 let (sh, exp_bit) = if t < (1u64 << 57) { (29u32, 0u64) } else { (30u32, 1u64) };
                 let low = t & ((1u64 << sh) - 1);
                 let dist = low.min((1u64 << sh) - low);
-                if dist < (1u64 << (sh - keep_bits)) {
+                if dist < (1u64 << (sh - keep_bits))
+                    && (dist < (1u64 << (sh - keep_all_bits)) || (m.wrapping_mul(0x9E37_79B9_7F4A_7C15).wrapping_add(ctx.seed) >> 40) & sample_mask == 0)
+                {
                     let mant = (t + (1u64 << (sh - 1))) >> sh; // nearest 28-bit input significand (hidden bit included)
                     if mant >= (1 << 27) && mant < (1 << 28) {
                         let frac = mant & ((1 << 27) - 1);
                         // P32E2 pattern at scale exp_bit + 4k' : use scales -4..=3 (two-bit regimes keep 27 fraction bits)
-                        for k in [-1i32, 0] {
-                            for e2 in [0u64, 2] {
-                                let e = exp_bit + e2; // same parity as exp_bit
-                                hard.push(gen::compose(32, 2, k, e as u32, frac));
-                            }
-                        }
+                        let k = if (m >> 1) & 1 == 0 { -1i32 } else { 0 };
+                        let e = exp_bit + if (m >> 2) & 1 == 0 { 0 } else { 2 }; // same parity as exp_bit
+                        hard.push(gen::compose(32, 2, k, e as u32, frac));
                     }
                 }
                 m += 2;
@@ -769,7 +772,7 @@ pub fn lone_bit_cases(ctx: &mut Ctx, ty: &Ty, count: usize) -> (Vec<(u64, u64)>,
     let mut tries = 0;
     while (pairs.len() < count || triples.len() < count) && tries < count * 400 {
         tries += 1;
-        let (u, v, w) = gen::lone_bit_pair(f, &mut ctx.rng);
+        let (u, v, w, _j) = gen::lone_bit_pair(f, &mut ctx.rng);
         let carry = (w >> f) as i32; // 1 + w/2^f >= 2 ?  (w < 2^(f+1))
         let wl = w & gen::mask(f);
         if wl == 0 {
@@ -801,6 +804,19 @@ pub fn lone_bit_cases(ctx: &mut Ctx, ty: &Ty, count: usize) -> (Vec<(u64, u64)>,
                 let c = gen::from_scale(n, es, s, ctx.rng.gen::<u64>());
                 triples.push((a, b, c));
                 break;
+            }
+            // the same with a carry: c just below 2^(s+1) so that c + a*b lands in the next binade,
+            // whose ulp must then sit on the product's lowest leading bit
+            if s + 1 <= maxs && triples.len() < count {
+                let nf1 = gen::frac_bits(n, es, (s + 1).div_euclid(1 << es)) as i32;
+                if s + 1 - nf1 == low_w + 1 && d <= nf {
+                    // c = 2^(s+1) - j new-ulps (a multiple of the new ulp, so that c + leading part is a tie)
+                    let top = gen::from_scale(n, es, s + 1, 0);
+                    let step = 1u64 << (1 + nf - nf1).max(0);
+                    let c = top.wrapping_sub(step * ctx.rng.gen_range(1..3u64)) & gen::mask(n - 1);
+                    triples.push((a, b, c));
+                    break;
+                }
             }
         }
     }
